@@ -61,7 +61,7 @@ def run(c):
     ph["model_checking"] = round(time.time() - t0, 1)
     other_sid = A.real_other_session_id()
     # ---- RP: spec -> code
-    jobs = A.replay_jobs(rnd, wits, msgs, 25 if c.quick else 3500, weight, must, "rp")
+    jobs = A.replay_jobs(rnd, wits, msgs, 25 if c.quick else 3500, weight, must, "rp", with_offer=False)
     # walks to the cap: each witness as single messages, then the states next to the cap extended by every kind of
     # message, once step by step and once with everything pipelined into the server's input before it starts
     near = [w for w in capwits if w["alive"] and w["failCount"] >= 8]
